@@ -444,6 +444,26 @@ def normDataPoint (d : DataPoint) : DataPoint :=
 /-- stated lossy point: an int64 histogram's sum/min/max travel as doubles (exact up to 2⁵³ in magnitude) -/
 def normNumF (n : Num) : Num := .float (numToF64 n)
 
+/-- the 63 low bits of an IEEE-754 binary64 read as an exact natural number: `some a` iff the magnitude
+(mantissa × 2^(exponent − 1075), hidden bit unless subnormal) is finite and integral, then `a` is that number.
+Written from the IEEE-754 layout (1 sign bit, 11 exponent bits biased by 1023, 52 fraction bits), not from
+`natToF64`. -/
+def f64MagToNat (n : Nat) : Option Nat :=
+  let E := n / 2 ^ 52 % 2048
+  let f := n % 2 ^ 52
+  if E = 2047 then none
+  else
+    let M := if E = 0 then f else 2 ^ 52 + f
+    let Ee := if E = 0 then 1 else E
+    if 1075 ≤ Ee then some (M * 2 ^ (Ee - 1075))
+    else if M % 2 ^ (1075 - Ee) = 0 then some (M / 2 ^ (1075 - Ee)) else none
+
+/-- reference decoder of a float64 bit pattern whose value is an integer (`none` for NaN, ±Inf and non-integral
+values): the exact value of the double, as an `Int` -/
+def f64ToInt (b : F64) : Option Int :=
+  let n := b.toNat
+  (f64MagToNat (n % 2 ^ 63)).map fun (a : Nat) => if n / 2 ^ 63 = 1 then -Int.ofNat a else Int.ofNat a
+
 def normHistPoint (d : HistPoint) : HistPoint :=
   { d with attrs := normKVs d.attrs, start := Int.ofNat (timeNano d.start), time := Int.ofNat (timeNano d.time),
            min := d.min.map normNumF, max := d.max.map normNumF, sum := normNumF d.sum,
